@@ -260,6 +260,7 @@ def check_network(ids, route_real, res, tmpdir):
 # ------------------------------------------------------------------ shape semantics
 
 SHAPE_ALPHABET = [["rect", 4.0, 2.0, 2.0, 1.0, 0], ["rect", 3.0, 1.0, 4.0, 3.0, math.pi / 2], ["rect", 4.0, 2.0, 6.0, 2.0, 0.6], ["rect", 1.0, 1.0, 0.0, 0.0, 0],
+                  ["rect", 4.0, 4.0, 5.0, 2.0, math.pi / 4], ["rect", 6.0, 1.0, 4.0, 1.0, -1.2], ["rect", 4.0, 2.0, 3.0, 3.0, math.pi],
                   ["circle", 2.5, 4.0, 2.0], ["circle", 5.0, 3.0, 0.0], ["circle", 0.5, 10.0, 1.0], ["circle", 1.0, 0.0, 0.0],
                   ["poly", [[0.0, 0.0], [8.0, 0.0], [8.0, 2.0], [4.0, 2.0], [4.0, 6.0], [0.0, 6.0]]], ["poly", [[2.0, -2.0], [10.0, 2.0], [2.0, 2.0]]],
                   ["group", [["rect", 2.0, 2.0, 1.0, 1.0, 0], ["circle", 1.5, 6.0, 4.0]]], ["group", [["poly", [[0.0, 0.0], [3.0, 0.0], [0.0, 3.0]]], ["rect", 2.0, 1.0, 8.0, -3.0, 0]]]]
@@ -288,10 +289,12 @@ def boundary_dist(sp, p):
 def check_shapes(res):
     import numpy as np
     import shapely.geometry as sg
-    pts = netgeo.grid_points()
+    from mc.checks.c08 import probe_points
     for sp in SHAPE_ALPHABET:
         case = {"k": "shape", "shape": sp}
         res.states += 1
+        # the grid plus points next to the corners / rim of this shape (just inside and just outside)
+        pts = netgeo.grid_points() + probe_points(tuple(sp) if sp[0] != "group" else ("group", [tuple(m) for m in sp[1]]))
         for p in pts:
             exp = expect_contains(sp, p)
             res.evals += 1; res.transitions += 1
